@@ -81,11 +81,15 @@ Fixpoint fresh_ids (seen : list nat) (prev : nat) (l : list lobs) : bool * list 
       else fresh_ids (id :: seen) id t
   end.
 
+(* the level in force is the one last announced (UpdateBlind), whatever it is: a level, a break, a break without amounts *)
+Definition upd_in_force (s : lstepobs) : bool :=
+  match ls_op s with LUpdateBlind b => blind_eqb (lo_blind (ls_post s)) b | _ => true end.
+
 Definition C07_step_ok (s : lstepobs) : bool :=
-  c07_edges s && c07_count s && c07_one_hand s && c07_reset s && c07_no_open s.
+  c07_edges s && c07_count s && c07_one_hand s && c07_reset s && c07_no_open s && upd_in_force s.
 Definition C07_diag (s : lstepobs) : nat :=
   if negb (c07_edges s) then 1 else if negb (c07_count s) then 2 else if negb (c07_one_hand s) then 3
-  else if negb (c07_reset s) then 4 else if negb (c07_no_open s) then 5 else 0.
+  else if negb (c07_reset s) then 4 else if negb (c07_no_open s) then 5 else if negb (upd_in_force s) then 7 else 0.
 
 (* ---------------- C08 ---------------- *)
 Definition is_gate_step (o : lop) : bool := match o with LFinish | LTimeout => true | _ => false end.
@@ -113,9 +117,9 @@ Definition c08_opens (s : lstepobs) : bool :=
   || negb (is_set (lo_blind (ls_pre s))) || is_break (lo_blind (ls_pre s)) || negb (2 <=? lo_live_in (ls_pre s))%nat
   || (opened_in s && negb (ls_wedged s) && status_eqb (lo_status (ls_post s)) SPlaying).
 
-Definition C08_step_ok (min : nat) (s : lstepobs) : bool := c08_decide min s && c08_gate s && c08_opens s.
+Definition C08_step_ok (min : nat) (s : lstepobs) : bool := c08_decide min s && c08_gate s && c08_opens s && upd_in_force s.
 Definition C08_diag (min : nat) (s : lstepobs) : nat :=
-  if negb (c08_decide min s) then 1 else if negb (c08_gate s) then 2 else if negb (c08_opens s) then 3 else 0.
+  if negb (c08_decide min s) then 1 else if negb (c08_gate s) then 2 else if negb (c08_opens s) then 3 else if negb (upd_in_force s) then 4 else 0.
 
 (* ---------------- C12 ---------------- *)
 (* a hand is played at the level in force when it opened *)
@@ -132,5 +136,5 @@ Definition c12_stable (s : lstepobs) : bool :=
       | Some a, Some b => blind_eqb a b | None, None => true | _, _ => false end
       && charges_eqb (lo_meta (ls_pre s)) (lo_meta (ls_post s))).
 
-Definition C12_step_ok (s : lstepobs) : bool := c12_at_open s && c12_stable s.
-Definition C12_diag (s : lstepobs) : nat := if negb (c12_at_open s) then 1 else if negb (c12_stable s) then 2 else 0.
+Definition C12_step_ok (s : lstepobs) : bool := c12_at_open s && c12_stable s && upd_in_force s.
+Definition C12_diag (s : lstepobs) : nat := if negb (c12_at_open s) then 1 else if negb (c12_stable s) then 2 else if negb (upd_in_force s) then 3 else 0.
